@@ -312,6 +312,7 @@ def parse_header(p):
     return ret, name, args, va
 
 def parse_decl(m, l):
+    if re.search(r'@llvm\.(experimental\.noalias|dbg\.)', l): return
     p = P(lex(l), m); p.expect('declare')
     ret, name, args, va = parse_header(p)
     m.decls[name] = dict(ret=ret, args=args, va=va, sx=p.last_sx)
@@ -432,7 +433,10 @@ def parse_inst(p, raw):
         if isinstance(rt, FuncT): fty = rt; rt = fty.ret
         elif isinstance(rt, PtrT) and isinstance(rt.to, FuncT) and p.peek()[1] != '(':
             rt = rt.to.ret
-        callee = parse_value(p, PtrT(IntT(8))); p.expect('('); args = []
+        callee = parse_value(p, PtrT(IntT(8)))
+        if callee.kind == 'global' and re.match(r'@llvm\.(experimental\.noalias|dbg\.)', callee.val):
+            return Inst(None, 'call', callee=callee, args=[], ty=VoidT())
+        p.expect('('); args = []
         while not p.accept(')'):
             t = p.type(); skip_attrs(p); args.append(parse_value(p, t)); p.accept(',')
         return Inst(res, 'call', callee=callee, args=args, ty=rt)
